@@ -1069,7 +1069,7 @@ def check_C18(ctx):
     ctx.cov["rule"] = FRAME_RULE + "; pop-mode scenarios with at least one popped bar count as non-trivial"
     ctx.assumptions = ["user priorities above MinInt32 + number of bars",
                        "the screen replay is for frames whose rows fit the height (non-terminal output: height = width); in cycles that "
-                       "do not fit, one pattern is decided: a bar popped while its rows are cut off (open known finding D10)"]
+                       "do not fit, one pattern is decided: a bar popped out must be in the frame (D10, repaired in /repo)"]
     frames_check(ctx, {"CT_FLUSHBAR", "CT_FRAME", "OUT_ROWS", "OUT_CUU", "OUT_ORDER", "HM_PUSH", "HM_POP"}, M.c18_monitor, 300, 6000,
                  CONT_DEPS | {"ContainerFlush.v", "ContainerOut.v", "Term.v", "Props/C18.v"},
                  nontrivial=lambda case, frames: case["cfg"][5] == "1" and any(" CT_FLUSHBAR " in l and l.split()[4] == "2" for l in case["trace"]))
